@@ -130,6 +130,7 @@ def check(case, ctx):
         ctx.check(isinstance(out_data, tuple) and len(out_data) == len(data), "expected %d data components back", len(data))
     occupied = sorted(set(labels.tolist()))
     n_coords_exp = 2 if case["drop"] else len(coords)
+    ctx.check(isinstance(out_coords, tuple), "the reduced coordinates come back as a %s, documented (and returned in every other configuration) is a tuple of arrays", type(out_coords).__name__)
     ctx.check(len(out_coords) == n_coords_exp, "expected %d coordinate arrays, got %d (drop_coords=%r)", n_coords_exp, len(out_coords), case["drop"])
     for arr in list(out_coords) + list(out_data):
         ctx.check(np.asarray(arr).shape == (len(occupied),),
